@@ -33,7 +33,13 @@ from explorerscript.ssb_converting.decompiler.write_handlers.abstract import (
 from explorerscript.ssb_converting.decompiler.write_handlers.block import BlockWriteHandler
 from explorerscript.ssb_converting.decompiler.write_handler_manager import WriteHandlerManager
 from explorerscript.ssb_converting.ssb_data_types import SsbOperation
-from explorerscript.ssb_converting.ssb_special_ops import OPS_CTX_LIVES, OPS_CTX_OBJECT, OPS_CTX_PERFORMER
+from explorerscript.ssb_converting.ssb_special_ops import (
+    OPS_CTX_LIVES,
+    OPS_CTX_OBJECT,
+    OPS_CTX_PERFORMER,
+    SsbLabelJump,
+    SwitchStart,
+)
 from explorerscript.ssb_converting.util import Blk
 
 if TYPE_CHECKING:
@@ -52,6 +58,7 @@ class CtxSimpleOpWriteHandler(AbstractWriteHandler):
         # Workaround for "partially initialized modules"
         from explorerscript.ssb_converting.decompiler.write_handlers.simple_op import SimpleOperationWriteHandler
         from explorerscript.ssb_converting.decompiler.write_handlers.simple_ops.simple import SimpleSimpleOpWriteHandler
+        from explorerscript.ssb_converting.decompiler.write_handlers.label_jumps.switch_start import SwitchWriteHandler
         from explorerscript.ssb_converting.decompiler.write_handlers.simple_ops.message_switches import (
             MesageSwitchSimpleOpWriteHandler,
         )
@@ -75,6 +82,25 @@ class CtxSimpleOpWriteHandler(AbstractWriteHandler):
 
         exits = self.start_vertex.out_edges()
         assert len(exits) == 1, "After a lives/object/performer op, there must be exactly one op following."
+
+        # An operation that can be the header of a switch (ProcessSpecial, message_Menu, ...) but has no cases here is a
+        # simple statement, it is only marked as an (empty) switch.
+        next_vertex = exits[0].target_vertex
+        next_op = next_vertex["op"]
+        if isinstance(next_op, SsbLabelJump) and isinstance(next_op.get_marker(), SwitchStart):
+            switch_exits = next_vertex.out_edges()
+            header = SwitchWriteHandler._switch_header_for(next_op.root)
+            # (only the headers that are written like an operation call are statements on their own)
+            if (
+                len(switch_exits) == 1
+                and not switch_exits[0]["switch_ops"]
+                and header.startswith(f"{next_op.root.op_code.name}(")
+            ):
+                self.decompiler.write_stmnt(f"with ({ctx})")
+                with Blk(self.decompiler):
+                    self.decompiler.source_map_add_opcode(next_op.offset)
+                    self.decompiler.write_stmnt(f"{header};")
+                return switch_exits[0].target_vertex  # type: ignore
 
         handler = WriteHandlerManager.get_for(exits[0].target_vertex, self.decompiler, self, self.start_vertex, True)
 
